@@ -48,6 +48,7 @@ type httpPhase struct {
 	Script   string    `json:"script"`
 	Requests []httpReq `json:"requests"`
 	Main     []string  `json:"main"`
+	Pre      string    `json:"pre"` // evaluated in the global scope before the server starts (variables the handlers read)
 	Clients  int       `json:"clients"`
 	Blocking bool      `json:"blocking"` // the script calls the blocking serve: it is evaluated on a goroutine of its own and never returns
 }
@@ -131,6 +132,9 @@ func runHTTP(global *object.Env, h *httpPhase) *httpRes {
 	}
 	port := l.Addr().(*net.TCPAddr).Port
 	l.Close()
+	if h.Pre != "" {
+		evalIn(global, h.Pre)
+	}
 	env := object.NewEnclosedEnv(global)
 	if h.Blocking {
 		go evalIn(env, strings.ReplaceAll(h.Script, "@PORT@", strconv.Itoa(port)))
@@ -174,8 +178,8 @@ func runHTTP(global *object.Env, h *httpPhase) *httpRes {
 		}(g)
 	}
 	close(start)
-	for _, src := range h.Main { // the main script goes on while the handlers run
-		out.Main = append(out.Main, eval(global, src))
+	for _, src := range h.Main { // the main script goes on while the handlers run: like `pangaea script`, directly in the global scope
+		out.Main = append(out.Main, evalIn(global, src))
 	}
 	wg.Wait()
 	client := &http.Client{Timeout: 20 * time.Second}
